@@ -273,6 +273,12 @@ func genWorld(r *simkit.RNG, sc *Scenario, k *gknobs) {
 		if k.hostileTrees {
 			addHostile(r, &p, i, np, sc.UID == 0)
 		}
+		if rr := simkit.NewRNG(sc.Seed, fmt.Sprintf("bw/ro-rule/%d", i)); k.rules && sc.UID != 0 && rr.Chance(1, 3) && !hasPath(p.Files, "rodir") {
+			// an excluded file inside a directory the (unprivileged) builder cannot modify
+			p.Files = append(p.Files, PFile{Path: "rodir", Kind: "dir", Mode: 0o555}, PFile{Path: "rodir/drop.txt", Kind: "file", Body: "DROP;", Mode: 0o644}, PFile{Path: "rodir/keep.txt", Kind: "file", Body: "KEEP;", Mode: 0o644})
+			s := "rodir/drop.txt\n"
+			p.Rules = &s
+		}
 		if k.rules && r.Chance(2, 3) {
 			s := genPkgRules(r, &p)
 			if p.Rules != nil {
@@ -319,6 +325,12 @@ func genWorld(r *simkit.RNG, sc *Scenario, k *gknobs) {
 		sc.Pkgs[len(sc.Pkgs)-1].Base, sc.Pkgs[len(sc.Pkgs)-1].Query = "https://example.com/dl/mod%2Dv1.tgz", ""
 		sc.Pkgs[0].Commit, sc.Pkgs[len(sc.Pkgs)-1].Commit = "", ""
 	}
+	if cr := simkit.NewRNG(sc.Seed, "bw/same-commit"); len(sc.Pkgs) >= 2 && sc.Pkgs[0].Commit != "" && cr.Chance(1, 8) {
+		// two addresses whose fetcher responses carry the same commit id (a clone and an archive
+		// of the same commit, say) although the delivered trees differ
+		sc.Pkgs[len(sc.Pkgs)-1].Commit = sc.Pkgs[0].Commit
+		sc.Pkgs[len(sc.Pkgs)-1].BlankMeta = false
+	}
 	// registry packages
 	for i := 0; i < k.maxRegs; i++ {
 		host := simkit.Pick(r, []string{"example.com", "registry.terraform.io", "reg.example.org"})
@@ -338,6 +350,9 @@ func genWorld(r *simkit.RNG, sc *Scenario, k *gknobs) {
 				rv.DepLink = "https://example.com/dep/" + v
 				if r.Chance(1, 3) {
 					// the link is the registry's text, whatever it looks like
+					if r.Chance(1, 4) {
+						rv.DepReason = "" // a note that consists of a link only
+					}
 					rv.DepLink = simkit.Pick(r, []string{"HTTPS://Example.COM/Dep/" + v, "https://docs.example.com/m\u00f3dulos/aviso de baja#secci\u00f3n 2", "see the changelog", "", "https://example.com/a%2Fb?x=1&y=%20"})
 				}
 			}
@@ -376,6 +391,17 @@ func genWorld(r *simkit.RNG, sc *Scenario, k *gknobs) {
 			}
 			if len(m.Deps) > 1 && r.Chance(1, 4) {
 				m.Twice = true
+			}
+			if dr := simkit.NewRNG(sc.Seed, fmt.Sprintf("bw/dup-reg-dep/%d/%d", pi, mi)); dr.Chance(1, 6) {
+				// the same registry source reported twice by one analysis, with different version sets
+				for _, d := range m.Deps {
+					if d.Kind == "registry" {
+						d2 := d
+						d2.Constr = pickConstr(dr, k)
+						m.Deps = append(m.Deps, d2)
+						break
+					}
+				}
 			}
 		}
 	}
@@ -629,6 +655,7 @@ func addHostile(r *simkit.RNG, p *Pkg, i, np int, rootRun bool) {
 		{Path: "h-up-dot", Kind: "link", Target: "../."},
 		{Path: "hd/h-upup", Kind: "link", Target: "../.."},
 		{Path: "h-abs-root", Kind: "link", Target: "/"},
+		{Path: "hd/h-leak", Kind: "link", Target: "h-top/../../victim"},
 	}
 	n := r.Range(1, 3)
 	if r.Chance(1, 3) {
@@ -653,6 +680,10 @@ func addHostile(r *simkit.RNG, p *Pkg, i, np int, rootRun bool) {
 		}
 		if strings.HasPrefix(c.Path, "hd/") && !hasPath(p.Files, "hd") {
 			p.Files = append(p.Files, PFile{Path: "hd", Kind: "dir", Mode: 0o755})
+		}
+		if c.Path == "hd/h-leak" && !hasPath(p.Files, "hd/h-top") {
+			// a valid link to the package's own root, through which the other one climbs out
+			p.Files = append(p.Files, PFile{Path: "hd/h-top", Kind: "link", Target: ".."})
 		}
 		if c.Path == "h-to-fifo" && !hasPath(p.Files, "h-fifo") {
 			p.Files = append(p.Files, PFile{Path: "h-fifo", Kind: "fifo", Mode: 0o644})
